@@ -142,6 +142,46 @@ def infeasible(cons, limit=3000):
         if key not in seen:
             seen.add(key)
             cur.append(c)
+    # equalities (p <= 0 and -p <= 0 both present) with a unit-coefficient variable: substitute it away exactly, so that
+    # the integer tightening below sees the remaining variables' true coefficients (i = 3k, s = len + 4k, ...)
+    for _ in range(40):
+        keys = {tuple(sorted(c.items(), key=lambda kv: str(kv[0]))): c for c in cur}
+        pick = None
+        for c in cur:
+            neg = tuple(sorted(((k, -v) for k, v in c.items()), key=lambda kv: str(kv[0])))
+            if neg in keys:
+                us = [k for k, v in c.items() if k != "" and abs(v) == 1]
+                if us:
+                    pick = (c, keys[neg], min(us, key=str))
+                    break
+        if pick is None:
+            break
+        eq, eqn, x = pick
+        sx = eq[x]  # +-1: x = -sx * (rest of eq)
+        nxt = []
+        seen2 = set()
+        for c in cur:
+            if c is eq or c is eqn:
+                continue
+            cx = c.get(x, 0)
+            if cx:
+                d = dict(c)
+                del d[x]
+                for k, v in eq.items():
+                    if k != x:
+                        d[k] = d.get(k, 0) - cx * sx * v
+                d = _tighten({k: v for k, v in d.items() if v != 0})
+            else:
+                d = c
+            if not [k for k in d if k != ""]:
+                if d.get("", 0) > 0:
+                    return True
+                continue
+            key = tuple(sorted(d.items(), key=lambda kv: str(kv[0])))
+            if key not in seen2:
+                seen2.add(key)
+                nxt.append(d)
+        cur = nxt
     while True:
         vars_ = {}
         for c in cur:
@@ -342,6 +382,8 @@ def feasible(st, extra=()):
 
 # ----------------------------------------------------------------------------- the interpreter
 _STABLE_RE = None
+import os as _os
+_TRACE_KEY = _os.environ.get("SA_TRACE_KEY")
 
 
 def _stable(s):
@@ -457,6 +499,105 @@ class Num:
         b = self.base_of(st, pv)
         return b[:-1] if b.endswith(".") else b[:-2]
 
+    def quot_rem(self, st, a, c, t):
+        """(a div c, a mod c) for a >= 0, c > 0: one pair of atoms per (a, c) in a state"""
+        memo = st.notes.get("quot", {})
+        k = (a.key(), c)
+        if k in memo:
+            return memo[k]
+        q = self.fresh(st, "quot", None, (0, None))
+        r = self.fresh(st, "rem", None, (0, c - 1))
+        st.add_eq(Poly.atom(q) * c + Poly.atom(r) - a)
+        st.add(Poly.atom(q) - a)
+        memo = dict(memo)
+        memo[k] = (Poly.atom(q), Poly.atom(r))
+        st.notes["quot"] = memo
+        return memo[k]
+
+    # ---- memory cells: the value last read at an address stays what it was until something may have stored there
+    def _tracked(self, st, addr):
+        return {m[0] for m, cf in addr.t.items() if len(m) == 1 and cf == 1 and m[0] in st.extent and not m[0].startswith("&")}
+
+    def cell_read(self, st, addr, size, t):
+        cells = st.notes.get("cells", [])
+        bases = self._tracked(st, addr)
+        if bases:
+            for (a2, s2, v2) in cells:
+                if s2 == size and a2 == addr:
+                    return v2
+            for (a2, s2, v2) in cells[-12:]:
+                if s2 == size and (a2.atoms() & bases):
+                    d = addr - a2
+                    if entails(st, d) and entails(st, -d):
+                        return v2
+        a = Poly.atom(self.fresh(st, "elem", t))
+        if bases:
+            st.notes["cells"] = list(cells) + [(addr, size, a)]
+        return a
+
+    def cell_store(self, st, addr):
+        """a store to addr (None: anywhere): forget the cells it may overwrite.  Two different tracked objects do not
+        overlap (the storage of an output buffer is not the input view: the API's restrict contract)."""
+        cells = st.notes.get("cells")
+        if not cells:
+            return
+        bases = self._tracked(st, addr) if addr is not None else set()
+        if not bases:
+            st.notes["cells"] = []
+            return
+        st.notes["cells"] = [cl for cl in cells if self._tracked(st, cl[0]) and not (self._tracked(st, cl[0]) & bases)]
+
+    def const_table(self, bn):
+        """the values of a const-qualified global array with a constant initialiser, when bn designates one"""
+        fn = self.fn
+        x = bn
+        while x is not None and x["k"] in ("decay", "cast"):
+            x = fn.d(x["a"][0])
+        if x is None or x["k"] != "var" or x.get("sc") not in ("global", "slocal") or self.prog is None:
+            return None
+        g = self.prog.globals.get(x["n"])
+        if not g or not g.get("const") or not isinstance(g.get("init"), dict):
+            return None
+        t = self.ty(x)
+        if t.get("arr") is None:
+            return None
+        ini = g["init"]
+        if "str" in ini:
+            vals = [ord(ch) for ch in ini["str"]] + [0]
+        elif "array" in ini and all(isinstance(e, dict) and isinstance(e.get("int"), int) for e in ini["array"]):
+            vals = [e["int"] for e in ini["array"]]
+        else:
+            return None
+        if t["arr"] and t["arr"] > len(vals):
+            vals = vals + [0] * (t["arr"] - len(vals))
+        return vals
+
+    def simple_bounds(self, st, p):
+        """integer interval of p from its constant, the atom ranges and the single-atom facts (cheap, incomplete)"""
+        if p.is_const():
+            return (p.cval(), p.cval())
+        if len([m for m in p.t if m]) != 1:
+            return (None, None)
+        (m, cf), = [(m, cf) for m, cf in p.t.items() if m]
+        if len(m) != 1:
+            return (None, None)
+        a = m[0]
+        k0 = p.t.get((), 0)
+        lo, hi = st.rng.get(a, (None, None))
+        for f in st.facts:
+            if len(f.t) <= 2 and all((not mm) or mm == (a,) for mm in f.t) and (a,) in f.t:
+                ca, cc = f.t[(a,)], f.t.get((), 0)
+                # ca*a + cc <= 0
+                if ca > 0:
+                    b = (-cc) // ca
+                    hi = b if hi is None or b < hi else hi
+                else:
+                    b = -((-cc) // (-ca))  # ceil(cc / -ca)
+                    lo = b if lo is None or b > lo else lo
+        if cf > 0:
+            return (None if lo is None else cf * lo + k0, None if hi is None else cf * hi + k0)
+        return (None if hi is None else cf * hi + k0, None if lo is None else cf * lo + k0)
+
     def member_key(self, basekey, arrow_val, f):
         return basekey + "." + f
 
@@ -484,6 +625,10 @@ class Num:
                         st.extent[a] = ext
                 return st.env[k]
             return None
+        if k.startswith("g:") and self.prog is not None and "w" in t:
+            g = self.prog.globals.get(k[2:])
+            if g and g.get("const") and isinstance(g.get("init"), dict) and isinstance(g["init"].get("int"), int):
+                return Poly.const(g["init"]["int"])  # a const-qualified scalar with a constant initialiser
         hint = k.split(":")[-1] if k[:2] in ("v:", "g:") else k
         hint = hint.replace("(", "").replace(")", "")
         a = self.fresh(st, hint, t)
@@ -545,6 +690,7 @@ class Num:
                 addr = self.val(fn.d(nn["a"][0]), st)
             elif nn["k"] == "un" and nn["op"] == "deref":
                 addr = self.val(fn.d(nn["a"][0]), st)
+            self.cell_store(st, addr)
             st.notes.setdefault("memw", []).append((nn.get("loc", [0])[0], repr(addr) if addr is not None else "?"))
             return
         if nn["k"] == "member":
@@ -676,8 +822,27 @@ class Num:
                 return None
             return self.read(n, st)
         if k == "index":
-            b = self.val(fn.d(n["a"][0]), st)
-            self.val(n["a"][1], st)
+            bn = fn.d(n["a"][0])
+            b = self.val(bn, st)
+            i = self.val(n["a"][1], st)
+            tab = self.const_table(bn)
+            if tab is not None and i is not None:
+                lo, hi = self.simple_bounds(st, i)
+                lo = 0 if lo is None or lo < 0 else lo
+                hi = len(tab) - 1 if hi is None or hi >= len(tab) else hi
+                if lo <= hi:
+                    vals = tab[lo:hi + 1]
+                    if min(vals) == max(vals):
+                        return Poly.const(vals[0])
+                    a = self.fresh(st, "tab", t, (min(vals), max(vals)))
+                    tvn = dict(st.notes.get("tabvals", {}))
+                    tvn[a] = tuple(sorted(set(vals)))
+                    st.notes["tabvals"] = tvn
+                    return Poly.atom(a)
+            if b is not None and i is not None and "w" in t:
+                bt = self.ty(bn)
+                esz = bt.get("psz") or bt.get("esz") or (t["w"] // 8)
+                return self.cell_read(st, b + i * esz, t["w"] // 8, t)
             a = self.fresh(st, "elem", t)
             return Poly.atom(a)
         if k == "decay":
@@ -708,9 +873,10 @@ class Num:
             op = n["op"]
             x = n["a"][0]
             if op == "deref":
-                self.val(x, st)
+                pv = self.val(x, st)
                 if "w" in t or t.get("ptr"):
-                    kk = self.key(n, st)
+                    if pv is not None and "w" in t:
+                        return self.cell_read(st, pv, t["w"] // 8, t)
                     return Poly.atom(self.fresh(st, "deref", t))
                 return None
             if op == "addr":
@@ -887,11 +1053,8 @@ class Num:
             if op == "<<" and b.is_const() and 0 <= b.cval() < 64:
                 return self.norm(a * (2 ** b.cval()), t, st, "shl")
             if op in ("/", "%") and b.is_const() and b.cval() > 0 and entails(st, -a):
-                c = b.cval()
-                q = self.fresh(st, "quot", t, (0, self.trange(t)[1]))
-                r = self.fresh(st, "rem", t, (0, c - 1))
-                st.add_eq(Poly.atom(q) * c + Poly.atom(r) - a)
-                return Poly.atom(q) if op == "/" else Poly.atom(r)
+                q, r = self.quot_rem(st, a, b.cval(), t)
+                return q if op == "/" else r
             if op == "&" and (a.is_const() or b.is_const()):
                 m, x = (a.cval(), b) if a.is_const() else (b.cval(), a)
                 if "w" in t and m == self.trange(t)[1] and entails(st, -x) and entails(st, x - m):
@@ -899,13 +1062,12 @@ class Num:
                 if m == 0:
                     return Poly.const(0)
                 if m >= 0:
+                    # x & (2^k - 1) = x mod 2^k
+                    if m & (m + 1) == 0 and entails(st, -x):
+                        return self.quot_rem(st, x, m + 1, t)[1]
                     r = self.fresh(st, "and", t, (0, m))
                     if entails(st, -x):
                         st.add(Poly.atom(r) - x)
-                    # x & (2^k - 1) = x mod 2^k
-                    if m & (m + 1) == 0 and entails(st, -x):
-                        q = self.fresh(st, "hi", None, (0, None))
-                        st.add_eq(Poly.atom(q) * (m + 1) + Poly.atom(r) - x)
                     return Poly.atom(r)
             if op == "&" and entails(st, -a) and entails(st, -b):
                 r = self.fresh(st, "and", t, (0, self.trange(t)[1] if "w" in t else None))
@@ -970,12 +1132,29 @@ class Num:
             else:
                 new = [[]]            # a disequality between two unknowns carries no linear information: keep one state
         outs = []
+        tv = st.notes.get("tabvals")
         for alt in new:
             s = st if len(new) == 1 else st.copy()
             if not feasible(s, alt):
                 continue
             for p in alt:
                 s.add(p)
+            if tv:
+                # a value read from a constant table is one of the table's entries: tighten to the entries still possible
+                dead = False
+                for at in d.atoms():
+                    if at in tv:
+                        lo, hi = self.simple_bounds(s, Poly.atom(at))
+                        left = [x for x in tv[at] if (lo is None or x >= lo) and (hi is None or x <= hi)]
+                        if not left:
+                            dead = True
+                            break
+                        if lo is None or min(left) > lo:
+                            s.add(Poly.const(min(left)) - Poly.atom(at))
+                        if hi is None or max(left) < hi:
+                            s.add(Poly.atom(at) - max(left))
+                if dead:
+                    continue
             # activate conditional facts of flag atoms whose truth is now known
             s2 = self.activate(s, a, b, op)
             outs.extend(s2)
@@ -1064,8 +1243,33 @@ class Num:
         return self.assume_cmp("!=" if pol else "==", v, Poly.const(0), st)
 
     # ---- execution of one CFG element
+    def has_nested(self, e):
+        """does element e contain, below its top node, an assignment or ++/-- (a side effect evaluated with it)?"""
+        memo = self.__dict__.setdefault("_nested", {})
+        r = memo.get(e["id"])
+        if r is None:
+            r = False
+            for n in list(self.fn.walk(e))[1:]:
+                if (n["k"] == "bin" and n["op"] in ASSIGN) or (n["k"] == "un" and n["op"] in ("post++", "post--", "pre++", "pre--")):
+                    r = True
+                    break
+            memo[e["id"]] = r
+        return r
+
     def exec_elem(self, e, st):
         """apply the effect of CFG element e; returns list of successor states"""
+        k = e["k"]
+        post = k in ("decl", "ret") or (k == "bin" and (e["op"] in ASSIGN or e["op"] in CMP or e["op"] in ("&&", "||"))) or (k == "un" and e["op"] == "!")
+        if post and self.has_nested(e):
+            # the element's own effect uses the operands' values before their side effects (i++ yields the old i), which
+            # are then applied
+            outs = self._exec_elem(e, st)
+            for s in outs:
+                self.apply_nested(e, s)
+            return outs
+        return self._exec_elem(e, st)
+
+    def _exec_elem(self, e, st):
         fn = self.fn
         k = e["k"]
         if k == "decl":
@@ -1255,6 +1459,8 @@ class Num:
     def exec_call(self, e, st):
         fn = self.fn
         args = [self.val(a, st) for a in e["a"]]
+        if self.has_nested(e):
+            self.apply_nested(e, st)  # f(a[i++]): the argument values above are the ones before the increment
         t = self.ty(e)
         res = NotImplemented
         if self.hooks is not None and hasattr(self.hooks, "call"):
@@ -1280,6 +1486,13 @@ class Num:
     INLINE_MAX_STATES = 12
 
     def try_inline(self, e, args, st):
+        r = self._try_inline(e, args, st)
+        if _os.environ.get("SA_INLINE") and e.get("callee") and _os.environ["SA_INLINE"] in e["callee"]:
+            print("  [inline] %s in %s line %s -> %s (%s)" % (e["callee"], self.fn.name, e.get("loc", ["?"])[0], "no" if r is None else "%d states" % len(r), getattr(self, "_inl_why", "")))
+        return r
+
+    def _try_inline(self, e, args, st):
+        self._inl_why = ""
         name = e.get("callee")
         if not name or self.prog is None or getattr(self, "no_inline", False):
             return None
@@ -1336,12 +1549,16 @@ class Num:
         try:
             res = sub._inline_states(s0, rets)
         except Limit:
+            self._inl_why = "callee trace limit"
             return None
         if res is None or len(res) > self.INLINE_MAX_STATES or not res:
+            self._inl_why = "states: %s" % (None if res is None else len(res))
             return None
         if len(res) > 2 and e["id"] not in self.referenced_ids():
+            self._inl_why = "result unused"
             return None  # the caller ignores the result: a single conservative effect is cheaper than several precise ones
-        if self.paths > self.max_paths // 8:
+        if self.paths > self.max_paths // 2:
+            self._inl_why = "path budget"
             return None
         outs = []
         rt = callee.rettype()
@@ -1355,7 +1572,9 @@ class Num:
                 if len(lk) == 3:
                     pre, vk = lk[0], lk[1]
                     for k in list(s1.env):
-                        if k.startswith(pre) and k != pre:
+                        if k == pre:
+                            new_local[vk] = (s1.env[k], s1.meta.get(k))  # a scalar local written through its address
+                        elif k.startswith(pre):
                             new_local[vk + "." + k[len(pre):]] = (s1.env[k], s1.meta.get(k))
                 else:
                     if lk[0] in s1.env:
@@ -1434,13 +1653,11 @@ class Num:
             if E is None:
                 from .effects import Effects
                 E = self.prog._effects = Effects(self.prog)
-            if callee is not None and callee.blocks:
-                eff = E.of(callee.name)
-                if eff is not None:
-                    self.apply_effects(e, eff, st)
-                    return
-            elif callee is None and e.get("callee") is None and E.is_log_call(fn, e):
+            eff = E.callee_items(fn, e)
+            if eff is not None:
+                self.apply_effects(e, eff, st)
                 return
+        self.cell_store(st, None)
         for ai, a in enumerate(e["a"]):
             x = fn.d(a)
             if x is None:
@@ -1571,10 +1788,12 @@ class Num:
                 fallback(it[1], it[2], None)
             elif kind == "ty":
                 self.havoc_type(st, it[1])
+                self.cell_store(st, None)
             elif kind == "r":
                 self.havoc_reachable(st, it[1], include_self=False)
             elif kind == "g":
-                self.havoc_prefix(st, "g:" + it[1])
+                if not (it[2] and it[2][-1].endswith("[]")):
+                    self.havoc_prefix(st, "g:" + it[1])  # (elements of a global array are not tracked as keys)
             elif kind == "p":
                 _, j, hops, rec, fld, ctype = it
                 if j >= len(e["a"]):
@@ -1597,6 +1816,12 @@ class Num:
                 if cur is None:
                     fallback(rec, fld, ctype)
                     continue
+                arr = bool(hops) and hops[-1].endswith("[]")
+                if arr:
+                    hops = tuple(hops[:-1]) + (hops[-1][:-2].rstrip("."),)
+                    if len(hops) == 1 and not hops[0] and not (inner is not None and inner["k"] == "un" and inner["op"] == "addr"):
+                        self.cell_store(st, self.val(x, st))  # p[i] = ...: bytes of the object the argument points to
+                        continue
                 ok = True
                 for hi, ch in enumerate(hops):
                     if ch:
@@ -1611,7 +1836,16 @@ class Num:
                     sep = "." if cur.startswith("v:") else "->"
                 if not ok:
                     fallback(rec, fld, ctype)
+                    if arr or not rec:
+                        self.cell_store(st, None)
                     continue
+                if arr:
+                    self.cell_store(st, st.env.get(cur))  # elements of the array / buffer that key designates
+                    continue
+                if not rec:
+                    pvv = self.val(x, st) if not (inner is not None and inner["k"] == "un" and inner["op"] == "addr") else None
+                    if len(hops) == 1 and not hops[0] and pvv is not None:
+                        self.cell_store(st, pvv)  # *p = ...
                 self.havoc_prefix(st, cur)
                 # other names of the same storage
                 if rec:
@@ -1690,7 +1924,7 @@ class Num:
                         elif l["k"] == "member":
                             out.append(("field", l.get("rec"), l["f"], l, n))
                         else:
-                            out.append(("type", self.ty(l).get("c")))
+                            out.append(("type", self.ty(l).get("c"), l))
                     elif n["k"] == "call":
                         out.append(("call", n))
                     elif n["k"] == "asm":
@@ -1721,6 +1955,22 @@ class Num:
                         self.read(x[3], st)
                 if k is not None and k in st.env and k not in pre:
                     pre[k] = st.env[k]
+        # calls whose whole effect the hooks describe as changes of named keys: those keys become loop atoms
+        described = set()
+        rate_keys = set()
+        for x in eff:
+            if x[0] in ("var", "field") and len(x) > 2 and x[-1]["k"] == "bin" and x[-1]["op"] in ("+=", "-=") and self.const_step(x[-1]) is None:
+                rate_keys.add(("v:" + x[1]) if x[0] == "var" else self.key(x[3], st))
+        if self.hooks is not None and hasattr(self.hooks, "call_modifies"):
+            for x in eff:
+                if x[0] == "call":
+                    mods = self.hooks.call_modifies(self, st, x[1])
+                    if mods is not None:
+                        described.add(id(x[1]))
+                        for (mk, mrec, mf) in mods:
+                            if mk not in pre:
+                                pre[mk] = self.field(st, mk, mrec, mf)
+                            rate_keys.add(mk)
         # cursors handed to callees inside the loop: their length is a progress measure
         prog_keys = []
         if getattr(self, "track_progress", False):
@@ -1766,6 +2016,25 @@ class Num:
         # candidates: linear relations between modified keys with known pre-values: sum c_k (x_k - pre_k) == 0 for small c
         cands = self.relation_candidates(header, eff, pre, direction, st)
         entry_facts = list(st.facts)
+        # the object each pointer store in the body goes to, when its base is a pointer that is only stepped in the loop
+        store_bases = {}
+        reassigned = {y[1] for y in eff if y[0] == "var" and (len(y) < 3 or self.const_step(y[2]) is None)}
+        for x in eff:
+            if x[0] == "type" and len(x) > 2:
+                l = x[2]
+                bn = fn.d(l["a"][0]) if l["k"] in ("index",) or (l["k"] == "un" and l["op"] == "deref") else None
+                okb = bn is not None
+                if okb:
+                    for y in fn.walk(bn, follow_refs=True):
+                        if y["k"] == "var" and y["n"] in reassigned:
+                            okb = False
+                        if y["k"] == "call":
+                            okb = False
+                if okb:
+                    s_tmp = st.copy()
+                    bv = self.val(bn, s_tmp)
+                    if bv is not None and self._tracked(st, bv):
+                        store_bases[id(l)] = bv
         # havoc
         for x in eff:
             if x[0] == "var":
@@ -1777,7 +2046,10 @@ class Num:
                         del st.env[k2]
             elif x[0] == "type":
                 self.havoc_type(st, x[1])
+                self.cell_store(st, store_bases.get(id(x[2])) if len(x) > 2 else None)
             elif x[0] == "call":
+                if id(x[1]) in described:
+                    continue
                 if x[1].get("callee") not in self.PURE and not self.summary_is_pure(x[1]):
                     self.havoc_call(x[1], st)
             elif x[0] == "asm":
@@ -1795,6 +2067,11 @@ class Num:
                 st.add(p0 - newv[k])
             elif d == -1:
                 st.add(newv[k] - p0)
+            ss = {self.const_step(x[-1]) for x in eff if x[0] in ("var", "field") and len(x) > 2 and ((("v:" + x[1]) if x[0] == "var" else self.key(x[3], st)) == k)}
+            if len(ss) == 1 and None not in ss and abs(list(ss)[0]) >= 2:
+                # every assignment in the body adds the same constant: the value moves in whole strides
+                it = self.fresh(st, "strides", None, (0, None))
+                st.add_eq(newv[k] - p0 - Poly.atom(it) * list(ss)[0])
         for k in prog_keys:  # the cursor is only changed through the API: it is still a valid view
             st.meta[k] = ("aws_byte_cursor", k[-3:], None)
             if self.hooks is not None and hasattr(self.hooks, "fresh_field"):
@@ -1869,6 +2146,27 @@ class Num:
                     continue
                 hc.append((cid, F.subst(mp), {list(newv[k].t)[0][0]: k for k in single.values()}))
                 st.add(F.subst(mp))
+        # a loop-invariant value (capacity, extent, end pointer) written in terms of the entry values of modified keys:
+        # the same expression over their current values stays on the same side of it
+        if single and "*" not in dropped:
+            seenV = set()
+            vals_ = [v for k_, v in st.env.items() if k_ not in newv] + list(st.extent.values())
+            for V in vals_:
+                if V is None or V.is_const() or len(V.t) > 5 or V.degree() > 1 or len(V.atoms() & set(single)) < 2:
+                    continue
+                vk = V.key()
+                if vk in seenV:
+                    continue
+                seenV.add(vk)
+                V2 = V.subst(mp)
+                am = {list(newv[k].t)[0][0]: k for k in single.values()}
+                for sgn, nm in ((1, "le"), (-1, "ge")):
+                    cid = _stable("shape-%s<%r>" % (nm, V.subst({a: Poly.atom("KEY<" + k + ">") for a, k in single.items()})))
+                    if cid in dropped:
+                        continue
+                    G = (V2 - V) * sgn
+                    hc.append((cid, G, am))
+                    st.add(G)
         # cursors changed only through the API inside the loop: ptr never moves back, len never grows, ptr+len is fixed,
         # and ptr stays below any loop-invariant pointer it was below at entry (candidates, checked like the others)
         def _atom(p):
@@ -1897,6 +2195,25 @@ class Num:
                     continue
                 hc.append((cid, G, amap))
                 st.add(G)
+        # rate candidates: while key a advances by exactly one per assignment, key b grows by at most c per step of a
+        if "*" not in dropped:
+            unit = [k for k, sv in stepkeys.items() if k in newv and sv and all(x_ == 1 for x_ in sv)]
+            for a_ in unit:
+                for b_ in newv:
+                    if b_ == a_ or b_ not in rate_keys:
+                        continue  # only keys changed by a variable amount (a += expression, or a call the hooks describe)
+                    if len(newv[b_].t) != 1 or pre[b_].degree() > 1:
+                        continue
+                    mb = st.meta.get(b_)
+                    if mb and mb[2] and ("*" in mb[2]):
+                        continue
+                    for cc in (1, 2, 3, 4):
+                        cid = _stable("rate<%s|%s|%d>" % (b_, a_, cc))
+                        if cid in dropped:
+                            continue
+                        G = (newv[b_] - pre[b_]) - (newv[a_] - pre[a_]) * cc
+                        hc.append((cid, G, {_atom(newv[b_]): b_, _atom(newv[a_]): a_}))
+                        st.add(G)
         lc = dict(st.notes.get("loop_cands", {}))
         lc[header] = hc
         st.notes["loop_cands"] = lc
@@ -1905,6 +2222,30 @@ class Num:
         st.notes["loop_atoms"] = la
         st.notes.setdefault("loops", []).append((header, sorted(pre), len(cands), len(hc)))
         return st
+
+    def split_at_loop_entry(self, header, st):
+        """`for (x = a; x < N; ++x)`: when the state decides neither a <= N nor a > N, analyse the two cases separately
+        (in the second the body never runs), so that the bound x <= N can be kept as an invariant in the first"""
+        fn = self.fn
+        B = fn.blocks[header]
+        c = fn.d(B.cond) if B.cond is not None else None
+        if c is None or c["k"] != "bin" or c["op"] not in ("<", "<="):
+            return [st]
+        s = st.copy()
+        x = self.val(c["a"][0], s)
+        N = self.val(c["a"][1], s)
+        if x is None or N is None or x.degree() > 1 or N.degree() > 1:
+            return [st]
+        bound = N if c["op"] == "<" else N + 1
+        if entails(s, x - bound) or entails(s, bound + 1 - x):
+            return [st]
+        outs = []
+        for f in (x - bound, bound + 1 - x):
+            s2 = st.copy()
+            if feasible(s2, [f]):
+                s2.add(f)
+                outs.append(s2)
+        return outs if len(outs) == 2 else [st]
 
     def check_back_edge(self, header, st):
         """a trace arrived back at the loop header: every kept candidate must hold for the values at the end of the iteration"""
@@ -2030,16 +2371,20 @@ class Num:
             return []
         # enumerate iteration paths
         paths = []
-        stack = [(header, (header,))]
+        stack = [(header, (header,), None)]
         guard = 0
         while stack and guard < 4000:
             guard += 1
-            b, path = stack.pop()
-            for s_id, _, _ in edges(fn, b):
+            b, path, fz = stack.pop()
+            Bb = fn.blocks[b]
+            for s_id, _, pol in edges(fn, b):
+                if fz is not None and isinstance(pol, bool) and pol != fz:
+                    continue
+                nf = (pol if Bb.sc_forced > 0 else (not pol)) if (Bb.sc_forced and Bb.term in ("||", "&&") and pol is (Bb.term == "||")) else None
                 if s_id == header:
                     paths.append(path)
                 elif s_id in body and s_id not in path:
-                    stack.append((s_id, path + (s_id,)))
+                    stack.append((s_id, path + (s_id,), nf))
         if not paths or guard >= 4000:
             return []
         out = []
@@ -2133,6 +2478,11 @@ class Num:
             if b not in can:
                 continue
             if b in loops and b not in inloops:
+                parts = self.split_at_loop_entry(b, st)
+                if len(parts) > 1:
+                    for p_ in parts:
+                        stack.append((b, p_, inloops))
+                    continue
                 st = self.enter_loop(b, st)
                 inloops = inloops | {b}
             elif b in loops and b in inloops:
@@ -2152,7 +2502,15 @@ class Num:
                         out[tid].extend(s.copy() for s in states)
                 nxt = []
                 for s in states:
-                    nxt.extend(self.exec_elem(e, s))
+                    if _TRACE_KEY:
+                        had = [k_ for k_ in s.env if _TRACE_KEY in k_]
+                    r_ = self.exec_elem(e, s)
+                    if _TRACE_KEY:
+                        for s_ in r_:
+                            gone = [k_ for k_ in had if k_ not in s_.env]
+                            if gone:
+                                print("  [trace] %s: %s removed by %s" % (fn.name, gone, fn.show(e)[:120]))
+                    nxt.extend(r_)
                 states = nxt
                 if e.get("id") in after_ids:
                     out[("after", e["id"])].extend(s.copy() for s in states)
@@ -2167,12 +2525,23 @@ class Num:
                 # leaving a loop: drop it from the active set when the successor is outside its body
                 nl = frozenset(h for h in inloops if s_id in loops[h])
                 for s in states:
-                    s2 = s.copy() if len(es) > 1 or len(states) > 1 else s
-                    if cond is not None:
-                        succ = self.assume(cond, pol, s2)
-                    else:
+                    fz = s.notes.get("forced")
+                    if fz is not None and fz[0] == b and isinstance(pol, bool):
+                        if pol != fz[1]:
+                            continue  # this branch was decided by the short-circuit exit that led here
+                        s2 = s.copy()
                         succ = [s2]
+                    else:
+                        s2 = s.copy() if len(es) > 1 or len(states) > 1 else s
+                        if cond is not None:
+                            succ = self.assume(cond, pol, s2)
+                        else:
+                            succ = [s2]
                     for s3 in succ:
+                        if B.sc_forced and B.term in ("||", "&&") and pol is (B.term == "||"):
+                            s3.notes["forced"] = (s_id, pol if B.sc_forced > 0 else (not pol))
+                        elif "forced" in s3.notes:
+                            del s3.notes["forced"]
                         s3.trail.append((b, s_id, pol if isinstance(pol, bool) else str(pol)))
                         if B.term == "?:" and cond is not None and isinstance(pol, bool):
                             s3.notes = dict(s3.notes)
